@@ -5,7 +5,7 @@
         gap 0 = before t1 (start of file), gap i = after ti, gap n = between the last token and end of file.
    The text of the file is  trivia(0) t1 trivia(1) t2 ... tn trivia(n)   (Items), nothing else: whatever a printer
    in round-trip mode emits has to be exactly this concatenation (C30), and whatever a formatter emits has to
-   keep t1 .. tn (C31: same descriptors) whatever the trivia were.
+   compile to the descriptors of t1 .. tn (C31) whatever the trivia were.
 
    A layout is the skeleton's default layout (plain canonical: one statement per line, two-space indentation)
    with PLACEMENTS <<gap, trivia kind>> overriding the default at some gaps.  Admissible says which trivia a gap
@@ -79,6 +79,7 @@ NeedsSeparator(s, g) ==
         \/ a = "s" /\ WordLike(b)
         \/ a = "n" /\ TokText(s, g + 1) = "."          \* "1." would lex as a float
         \/ TokText(s, g) = "." /\ b = "n"
+        \/ WordLike(a) /\ TokText(s, g + 1) = "." /\ DefaultKind(s, g) # "none"   \* a leading dot stays apart
 Admissible(s, g, k) ==
   /\ g \in Gaps(s)
   /\ IF g = 0 THEN k \in BOFKinds ELSE IF g = NTok(s) THEN k \in EOFKinds ELSE k \in GapKinds
@@ -116,7 +117,7 @@ ScopeWalk(s, i, stack, acc) ==
                  ELSE stack
        IN ScopeWalk(s, i + 1, st, Append(acc, Top(st)))
 ScopeSeq(s) == ScopeWalk(s, 1, <<"file">>, <<>>)
-Balanced(s) == \A i \in 1..NTok(s) : ScopeSeq(s)[i] # "none"        \* sanity of the skeleton data
+Balanced(s) == LET q == ScopeSeq(s) IN \A i \in 1..Len(q) : q[i] # "none"      \* sanity of the skeleton data
 GapScope(s, g) == IF g = 0 THEN "file" ELSE ScopeSeq(s)[g]
 Class(s, g) == GapScope(s, g) \o ":" \o TokName(s, g) \o "|" \o TokName(s, g + 1)
 
@@ -130,6 +131,6 @@ ItemsFrom(s, pl, i) ==
   ELSE <<TokText(s, i), TriviaText[KindAt(s, pl, i)]>> \o ItemsFrom(s, pl, i + 1)
 Items(s, pl) == <<TriviaText[KindAt(s, pl, 0)]>> \o ItemsFrom(s, pl, 1)
 (* what C30 demands of round-trip mode: output = Items concatenated;  per-declaration printing: the same minus
-   (a suffix of) the last item, the file's trailing trivia.  What C31 demands: the formatted text has the token
-   sequence Toks (hence the same descriptors), and formatting it again returns it unchanged. *)
+   (a suffix of) the last item, the file's trailing trivia.  What C31 demands: the formatted text compiles to the
+   descriptors of the skeleton (they do not depend on pl), and formatting it again returns it unchanged. *)
 =============================================================================
